@@ -117,7 +117,9 @@ def showOut (app : App) : Out → String
   | .route (.error e) => "err:" ++ e
   | .emitted e => s!"em:{showNatList e.called}:{e.error.getD "~"}"
   | .req r =>
-    s!"rq:b={showNatList r.before};{showRouted r.routed};a={showNatList r.after};s={r.status};h={Drv.RouterEdit.showOptNat r.handler};c={show01 r.critical}"
+    -- a 404 / 405 in flight that an after hook's exception replaced leaves no trace in the response
+    let lost := r.afterRaised && (match r.routed with | .served .notFound | .served (.notAllowed _) => true | _ => false)
+    s!"rq:b={showNatList r.before};{if lost then "lost" else showRouted r.routed};a={showNatList r.after};s={r.status};h={Drv.RouterEdit.showOptNat r.handler};c={show01 r.critical}"
 
 def insertIntKey (x : Int × Nat) : List (Int × Nat) → List (Int × Nat)
   | [] => [x]
